@@ -12,6 +12,7 @@ import CdsVerif.Algo.Vyukov.Model
 import CdsVerif.Algo.FreeList.Model
 import CdsVerif.Algo.TaggedFreeList.Model
 import CdsVerif.Algo.ReentrantSpin.Model
+import CdsVerif.Algo.HP.Replay
 import CdsVerif.Algo.RCU.Model
 import CdsVerif.Algo.Michael.Model
 open CdsVerif.Driver
@@ -121,6 +122,11 @@ def main (args : List String) : IO UInt32 := do
     replayLoop stdin CdsVerif.Algo.RCU.model (fun cfg => CdsVerif.Algo.RCU.initCfg cfg)
       (fun loc => loc == "gctl" || loc == "lock" || loc == "epoch" || loc == "buf" || loc == "buf.size" || loc == "obj"
         || (loc.startsWith "ctl" && loc.length > 3 && (loc.drop 3).all Char.isDigit)) (fun _ => true) none
+    return 0
+  | ["replay", "hp"] =>
+    -- configuration from the header words `H=` `T=` `R=` `cells=` (harness/clients/smr.cpp --static 1, trace rewritten by tools/hp_pre.py)
+    replayLoop stdin CdsVerif.Algo.HP.Replay.modelR (fun cfg => CdsVerif.Algo.HP.Replay.initCfg cfg)
+      CdsVerif.Algo.HP.Replay.relevant CdsVerif.Algo.HP.Replay.safeB none
     return 0
   | ["replay", "ring"] =>
     -- initial state from the header words `cap=<capacity()>` and (optional) `rot=<warm-up rotations>`
